@@ -252,6 +252,10 @@ def groupsBy (lab : List Nat) : List (List Nat) :=
 atom, atoms ascending -/
 def components (m : WMol) : List (List Nat) := groupsBy (compLabels m)
 
+/-- the component labelling is a fixed point of the relaxation pass (then no bond joins two different product
+molecules); reported by the driver for every product -/
+def componentsClosed (m : WMol) : Bool := relax m.bonds (compLabels m) == compLabels m
+
 /-! ## A rule -/
 
 structure Rule where
